@@ -83,6 +83,13 @@ func (e *Env) lookup(name string) (Val, bool) {
 	case "nil":
 		return NilV{}, true
 	}
+	if e.fr != nil && e.fr.parent == nil && e.x.freeCells != nil {
+		if c := e.x.freeCells[name]; c != nil {
+			if v, ok := e.st.cellv[c]; ok {
+				return v, true
+			}
+		}
+	}
 	if e.fr != nil {
 		if c := e.fr.cellByName(name, e.pos); c != nil {
 			if v, ok := e.st.cellv[c]; ok {
@@ -536,6 +543,21 @@ func (e *Env) evalCall(n *ast.CallExpr) Val {
 			}
 		}
 		evalFail("atloop(%d, ...): loop %d is not open here", ord, ord)
+	case "visitedloop":
+		// visitedloop(n): the head of loop n was reached on this path (since the enclosing iteration began)
+		lit, ok := n.Args[0].(*ast.BasicLit)
+		if !ok || e.fr == nil {
+			evalFail("visitedloop(n) needs a literal loop ordinal")
+		}
+		ord, _ := strconv.Atoi(lit.Value)
+		for key := range e.st.open {
+			if key.frame == e.fr.id {
+				if lp := e.fr.loops.byHead[key.head]; lp != nil && lp.ordinal == ord {
+					return Bool{"true"}
+				}
+			}
+		}
+		return Bool{"false"}
 	case "calls":
 		// calls("name"): how many calls to the callee of that source-level name happened on this path
 		lit, ok := n.Args[0].(*ast.BasicLit)
@@ -653,6 +675,14 @@ func (e *Env) evalCall(n *ast.CallExpr) Val {
 			evalFail("as: unknown type %q", name)
 		}
 		return e.x.unbox(iv, t)
+	case "sortedflag":
+		// sortedflag(s): ghost — sort.Strings/Ints was applied to this slice's array
+		v := e.eval(n.Args[0])
+		sl, ok := v.(Slice)
+		if !ok {
+			evalFail("sortedflag of %T", v)
+		}
+		return Bool{"(select " + e.x.ghostArr(e.st, "sorted") + " " + sl.Arr + ")"}
 	case "held":
 		// held(&mu): ghost lock state
 		v := e.eval(n.Args[0])
